@@ -88,6 +88,11 @@ class Builtin:
         return '<Builtin %s>' % self.name
 
 
+import os as _os
+_TRACE_FUNCS = _os.environ.get('PYVC_TRACE_FUNCS')       # development aid: which repo functions are ever executed symbolically
+_TRACE_SEEN = set()
+
+
 class LazyIter:
     """a generator object (generator expression, zip/enumerate over one): elements are produced -- and the effects of the
     element expression happen -- when they are PULLED, in the order python pulls them"""
@@ -576,6 +581,13 @@ class Interp:
     def run_function(self, node, module, parent_frame, qualname, cls, args, kwargs, defaults=None):
         frame = Frame(module, parent=parent_frame, func=node, cls=cls, qualname=qualname)
         frame.vars.update(self.bind_args(node, args, kwargs, parent_frame, module, defaults))
+        if _TRACE_FUNCS is not None and qualname not in _TRACE_SEEN:
+            _TRACE_SEEN.add(qualname)
+            try:
+                with open(_TRACE_FUNCS, 'a') as fh:
+                    fh.write('%s\n' % qualname)
+            except OSError:
+                pass
         if isinstance(node, ast.Lambda):
             return self.eval(node.body, frame)
         try:
